@@ -126,6 +126,11 @@ func runC08(r *report.Run) {
 	r.Set("traces_validated_against_impl", 2*total+2*tr)
 	r.Set("evaluations", 2*total+2*tr)
 	r.Set("distinct_nontrivial", nontriv)
+	for i, cs := range cpuSampled {
+		if i%8 == 0 {
+			r.Sample(cs)
+		}
+	}
 	r.Set("rule", "the five single-step sweeps with E in {0,1} under the boundary alphabets, the same sweeps again under alphabets concentrated at the top of the address space (DBR $FE/$FF, operands $FFxx, pointers $FFFFFE/$FFFFFF, PC within 4 bytes of $FF:FFFF) and the program search: every Step of both interpreters must return without a runtime failure and every logged bus read/write address must be below 2^24; non-trivial = the step touched bank $FF or page 0 of bank 0 (wrap region)")
 	r.Assume("whole 16 MiB bus mapped to one logging memory; the wrapped *target* of each access is judged by C01 (reference model), here only failure-freedom and the 24-bit bound")
 	c := cpuDefaultCase(0xBD)
